@@ -153,6 +153,8 @@ class Engine:
         ty = s.field_type(f)
         if isinstance(ty, tuple) and ty[0] == "rec":
             return None
+        if isinstance(ty, tuple) and ty[0] == "strmap":
+            return z3.Const("%s.%s" % (tag, f), z3.ArraySort(I, z3.ArraySort(S, I)))
         if ty == "items":
             return z3.Const("%s.%s" % (tag, f), z3.ArraySort(I, z3.ArraySort(I, I)))
         return z3.Const("%s.%s" % (tag, f), z3.ArraySort(I, sort_of(ty)))
@@ -219,6 +221,8 @@ class Engine:
             return none_obj
         if isinstance(val, VConst):
             return z3.Const("const_%s" % _mangle(repr(val.obj)), PyObj)
+        if isinstance(val, VCmp):
+            return val.obj
         if isinstance(val, VBool):
             return z3.If(val.t, z3.Const("const_True", PyObj), z3.Const("const_False", PyObj))
         if isinstance(val, VRef):
@@ -436,7 +440,17 @@ class Engine:
     def ev_Name(s, n, st, out):
         if n.id in st.env:
             return [(st, st.env[n.id])]
-        return [(st, s.global_name(n.id))]
+        try:
+            return [(st, s.global_name(n.id))]
+        except OutOfSubset:
+            if getattr(s.cur, "block", None) or getattr(s.cur, "free_default", False):
+                # a free variable of an extracted block that the contract does not
+                # type: an unconstrained opaque value (so nothing can be concluded from it)
+                v = VObj(z3.Const("free_" + n.id, PyObj))
+                st.env[n.id] = v
+                s.notes.append("untyped free variable %s of block %s treated as opaque" % (n.id, s.cur.key))
+                return [(st, v)]
+            raise
 
     def global_name(s, name):
         m = s.cur_module
@@ -544,6 +558,10 @@ class Engine:
             conj = []
             for k, op in enumerate(n.ops):
                 conj.append(s.compare(op, vals[k], vals[k + 1], st1, out, n))
+            if len(n.ops) == 1 and isinstance(n.ops[0], (ast.Eq, ast.NotEq)) and (isinstance(vals[0], VObj) or isinstance(vals[1], VObj)):
+                f = z3.Function("py_cmp_" + type(n.ops[0]).__name__, PyObj, PyObj, PyObj)
+                res.append((st1, VCmp(conj[0], f(s.to_obj(vals[0]), s.to_obj(vals[1])))))
+                continue
             res.append((st1, VBool(conj[0] if len(conj) == 1 else z3.And(conj))))
         return res
 
@@ -695,7 +713,9 @@ class Engine:
                         raise OutOfSubset("%d of non-int")
                     parts.append(fmt_d(args[k].t)); k += 1
                 else:
-                    raise OutOfSubset("format %" + c)
+                    # other conversions (%g, %.5f, ...): opaque text depending on format and argument
+                    fo = z3.Function("py_fmt", S, PyObj, S)
+                    return VStr(fo(fmt.t, s.to_obj(arg)))
                 i += 2
             else:
                 buf += f[i]
